@@ -299,11 +299,43 @@ fn literal_cases(ctx: &Ctx) -> Vec<(Case, bool)> {
     out
 }
 
+// Property names that also name something else in the language (type
+// functions, the built-in, parameter-like words) or are unusually long: a
+// property is found by its name in the object and nowhere else.
+fn special_names(ctx: &Ctx) -> Vec<(Case, bool)> {
+    let mut out = vec![];
+    let long = "a_rather_long_property_name_with_many_parts_0123456789_and_more";
+    for k in ["type", "len", "print", "keys", "str", "list", "object", "int", "next", "o", "k", "_", "_x", "x_1", long] {
+        let mk = |kind: &str, src: String, e: Expect, note: String| (Case{property: "C12".into(), kind: kind.into(), srcs: vec![src.into_bytes()], pred: Pred::Expect(e), note}, true);
+        for read in [format!("o.{k}"), format!("o[\"{k}\"]"), format!("(o.{k})()"), format!("o.{k} + 1"), format!("p.q.{k}")] {
+            if k == "_" && !read.contains('[') {
+                continue;
+            }
+            let src = format!("o := {{\"zz\": 1}}\np := {{\"q\": o}}\nprint(\"before\")\nr := {read}\nprint(\"after\")\n");
+            let mut e = Expect::err(b"before\n".to_vec());
+            e.diag = vec![DiagPred::WellFormed{max_line: 5}, DiagPred::MsgContains(vec![k.to_string()])];
+            ctx.label("special property name: missing");
+            out.push(mk("special_name_missing", src, e, format!("reading missing property '{k}' as {read}")));
+        }
+        if k == "_" {
+            continue;
+        }
+        let src = format!("o := {{\"{k}\": 5, \"zz\": 1}}\nprint(o.{k})\nprint(o[\"{k}\"])\no.{k} = 6\nprint(o[\"{k}\"])\no[\"{k}\"] += 1\nprint(o.{k})\no.{k} *= 2\nprint(o)\nq := {{\"zz\": 1}}\nq.{k} = 14\nprint(q == o)\nfor [key, v] in q {{\n    print(key)\n}}\n");
+        let (first, second) = if k < "zz" { (k, "zz") } else { ("zz", k) };
+        let (v1, v2) = if k < "zz" { (14, 1) } else { (1, 14) };
+        let want = format!("5\n5\n6\n7\n{{\n    \"{first}\": {v1},\n    \"{second}\": {v2},\n}}\ntrue\n{first}\n{second}\n");
+        ctx.label("special property name: present");
+        out.push(mk("special_name_present", src, Expect::ok(want.into_bytes()), format!("property '{k}' through both paths")));
+    }
+    out
+}
+
 pub fn run(ctx: &Ctx) {
-    ctx.set_rule("all histories of length <= 2 (quick; length 3 sampled; thorough: length 3 complete) over 61 operations on keys {a, b, A, 'a b', '', 1, é, aa}: insert / overwrite by [k] and .k, op-assign by both paths (present and missing key), read by both paths, {o.., k: v}, {k: v, o..}, merge of two spreads, computed keys, from two start objects, each history followed by print, for, == against a second object and a spread copy; all insertion orders of up to 5 keys from 4 key sets compared with the literal; a catalogue of literal forms (duplicates, shorthand, computed names, evaluation order, overlapping spreads); the .k <-> [\"k\"] rewriting of every history; oracle: reference map model (byte order) and the rewriting relation. Non-trivial = >= 2 operations (out-of-order insertions, overwrites, collisions, non-identifier keys occur in nearly all); distinct = distinct source texts");
+    ctx.set_rule("all histories of length <= 2 (quick; length 3 sampled; thorough: length 3 complete) over 61 operations on keys {a, b, A, 'a b', '', 1, é, aa}: insert / overwrite by [k] and .k, op-assign by both paths (present and missing key), read by both paths, {o.., k: v}, {k: v, o..}, merge of two spreads, computed keys, from two start objects, each history followed by print, for, == against a second object and a spread copy; all insertion orders of up to 5 keys from 4 key sets compared with the literal; a catalogue of literal forms (duplicates, shorthand, computed names, evaluation order, overlapping spreads); the .k <-> [\"k\"] rewriting of every history; property names that coincide with type functions / the built-in / other words, missing and present, through both paths; oracle: reference map model (byte order) and the rewriting relation. Non-trivial = >= 2 operations (out-of-order insertions, overwrites, collisions, non-identifier keys occur in nearly all); distinct = distinct source texts");
     ctx.replay_corpus(None);
     ctx.judge_all(literal_cases(ctx), Via::Cli, None);
     ctx.judge_all(insertion_orders(ctx), Via::Cli, None);
+    ctx.judge_all(special_names(ctx), Via::Cli, None);
     ctx.mark_exhaustive("all insertion orders of 1..5 keys from four key sets; all histories of length <= 2");
     enumerate(ctx, 1, 1);
     enumerate(ctx, 2, 1);
